@@ -8,6 +8,16 @@ HERE = os.path.dirname(os.path.dirname(os.path.abspath(__file__)))
 
 # id -> (level, technique, text, note, design_ref)
 CHECKS = {
+    'C12': ('exploration',
+            'Hypothesis generation of event matrices x dtypes x containers x channel forms; differential vs '
+            'pure-Python textbook definitions; container/channel-form agreement; identities',
+            'All ten statistics on generated matrices (1..200 events, uint8/16/32 either byte order, float32/64, '
+            'ties, constant columns, single events) in raw and RFI-converted samples and the equivalent plain '
+            'arrays, for every channel spelling, against pure-Python definitions with a tolerance that follows '
+            'the floating type NumPy computes in. One open finding (C12-KF1: half-precision logs for 8-bit data).',
+            'Trusted: reference definitions in pbt/props/c12.py. Geometric statistics of 8-bit data are only '
+            'bounded (25%) because of C12-KF1.',
+            'DESIGN.md section 4, C12'),
     'C18': ('exploration',
             'lattice enumeration + Hypothesis generation against the published equation evaluated independently, '
             'monotonicity and inverse-accuracy invariants',
